@@ -531,6 +531,39 @@ def h20_chunk_loop_drops_tail(ctx, tk, rule, funcs):
                        node=fn.ast, engine="KB")
 
 
+def h21_default_dtype_result(ctx, tk, rule, funcs):
+    """np.full / zeros / ones / empty without a dtype produce int64 / float64 whatever the data: returned as the
+    result of an operation on typed data, the result's type (and everything computed from it: uint64 + int64 is
+    float64) no longer follows the operand"""
+    for f in funcs:
+        fa = ctx.fa(f)
+        seen = set()
+        for r in fa.cfg.returns():
+            if r.ast.value is None:
+                continue
+            tm = fa.term(r.ast.value, r)
+            for x in walk(tm):
+                nm = np_call(x, {"full", "zeros", "ones", "empty"})
+                if not nm or id(x.node) in seen:
+                    continue
+                seen.add(id(x.node))
+                has_dt = "dtype" in dict(x.a[2]) or (nm == "full" and len(x.a[1]) > 2) or (nm != "full" and len(x.a[1]) > 1)
+                typed_fill = nm == "full" and any(y.k == "call" for y in walk(dict(x.a[2]).get("fill_value", x.a[1][1] if len(x.a[1]) > 1 else T("const", (0,), None))))
+                what = "an array allocated as (part of) the result carries a dtype derived from the data"
+                fvt = dict(x.a[2]).get("fill_value", x.a[1][1] if len(x.a[1]) > 1 else None) if nm == "full" else None
+                none_fill = fvt is not None and (all(is_const(a, None) for a in alts(fvt)) or (
+                    x.node is not None and fa.node_of(x.node) is not None and any(
+                        t.k == "cmp" and t.a[0] in ("is", "==") and truth and is_const(t.a[2], None) and any(a == t.a[1] for a in alts(fvt))
+                        for t, truth, _ in facts_at(fa, fa.node_of(x.node)))))
+                if none_fill:
+                    continue        # a placeholder array of None: there is no numeric type to derive
+                if has_dt or typed_fill:
+                    ctx.holds(rule, f, what, node=x.node, engine="KB")
+                else:
+                    ctx.violated(rule, f, what, "`%s` has numpy's default dtype whatever the operand's element type: e.g. the row sums of an unsigned array whose rows are "
+                                 "all empty come back int64, and adding them to unsigned values promotes to float64" % (x,), node=x.node, engine="KB")
+
+
 def generic(ctx, tk, rule, funcs, skip=()):
     """all deviance-form hazard rules over a property's function scope"""
     fs = [f for f in funcs if f.qual not in skip]
